@@ -723,6 +723,13 @@ func c14FailureSide(rep *base.Report, w *runner.Workspace, pairs []*wirePair) {
 				os.WriteFile(filepath.Join(other, "wire.go"), []byte("//go:build wireinject\n\npackage otherpkg\n\nimport \"github.com/google/wire\"\n\ntype T struct{}\n\nfunc NewT() *T { return &T{} }\n\nvar OtherSet = wire.NewSet(NewT)\n"), 0o644)
 				return []string{"migrate", ".", "./otherpkg"}
 			}},
+			{"packages-mixed-injector-only", func(dir string) []string {
+				// the second package (another name) declares no set at all, only an injector
+				other := filepath.Join(dir, "otherpkg")
+				os.MkdirAll(other, 0o755)
+				os.WriteFile(filepath.Join(other, "wire.go"), []byte("//go:build wireinject\n\npackage otherpkg\n\nimport \"github.com/google/wire\"\n\ntype T struct{}\n\nfunc NewT() *T { return &T{} }\n\nfunc InitT() *T {\n\twire.Build(NewT)\n\treturn nil\n}\n"), 0o644)
+				return []string{"migrate", ".", "./otherpkg"}
+			}},
 			{"duplicate-set-name", func(dir string) []string {
 				// the same package name in a second directory, declaring a set
 				// with a name that also exists in the first
